@@ -36,6 +36,7 @@ func (eng *Engine) resolveTargets(cfg *PropConfig) ([]targetFn, []string) {
 			o.modes.Frame = o.modes.Frame || m.Frame
 			o.modes.Termination = o.modes.Termination || m.Termination
 			o.modes.Probes = o.modes.Probes || m.Probes
+			o.modes.NonNilParams = o.modes.NonNilParams || m.NonNilParams
 			return
 		}
 		seen[fn] = len(out)
@@ -83,7 +84,7 @@ func (eng *Engine) resolveTargets(cfg *PropConfig) ([]targetFn, []string) {
 			}
 			for _, k := range eng.sortedKeys() {
 				fn := eng.fnByKey[k]
-				if len(fn.Blocks) == 0 || !eng.inRepo(fn) || eng.isVerifFn(fn) || fn.Synthetic != "" {
+				if len(fn.Blocks) == 0 || !eng.inRepo(fn) || eng.isVerifFn(fn) || fn.Synthetic != "" || fn.Name() == "init" || strings.HasPrefix(fn.Name(), "init#") {
 					continue
 				}
 				pk := eng.pkgNameOf(fn)
@@ -311,6 +312,36 @@ func (eng *Engine) checkProperty(id, tier string, timeoutFlag, workers int, keep
 			continue
 		}
 		viols = append(viols, &violation{res: r})
+	}
+	if os.Getenv("VERIF_WRITE_UNCLAIMED") != "" {
+		// maintenance mode: record every currently failing obligation of this property as unclaimed (reason to be edited)
+		var rest []Unclaimed
+		for _, u := range unclaimed {
+			if u.Property != id {
+				rest = append(rest, u)
+			}
+		}
+		seenU := map[string]bool{}
+		for _, u := range unclaimed {
+			if u.Property == id {
+				// keep entries that still match a failing obligation
+				for _, r := range run.results {
+					if !r.Obl.probe && r.Status != "proved" && matchName(u.Obligation, r.Obl.name) && !seenU[u.Obligation] {
+						seenU[u.Obligation] = true
+						rest = append(rest, u)
+					}
+				}
+			}
+		}
+		for _, v := range viols {
+			if !seenU[v.res.Obl.name] {
+				seenU[v.res.Obl.name] = true
+				rest = append(rest, Unclaimed{Property: id, Obligation: v.res.Obl.name, Reason: os.Getenv("VERIF_WRITE_UNCLAIMED")})
+			}
+		}
+		b, _ := json.MarshalIndent(rest, "", " ")
+		os.WriteFile(filepath.Join(eng.verifDir, "unclaimed.json"), b, 0o644)
+		fmt.Printf("wrote %d unclaimed entries\n", len(rest))
 	}
 	sort.Slice(slow, func(i, j int) bool { return slow[i].t > slow[j].t })
 	if len(slow) > 10 {
